@@ -84,6 +84,11 @@ def _cases(tier):
             if old != new and (tier != "quick" or sorted(old.replace('"', "'")) == sorted(new.replace('"', "'")) or len(old) + len(new) <= 3):
                 cases.append({"s": new, "old": old, "pos": "fixfrom", "fmt": "black"})
                 cases.append({"s": new, "old": old, "pos": "fixfromlist", "fmt": "black" if tier == "quick" else "noblack"})
+    for x in _strings(ALPHA_Q, 2) + [p + "ab" + q for p in BOUNDARY[:9] for q in BOUNDARY[:9]]:
+        for pos in ("parins", "pardel", "pardict"):
+            cases.append({"s": x, "pos": pos, "fmt": "black"})
+            if len(x) <= 1:
+                cases.append({"s": x, "pos": pos, "fmt": "noblack"})
     b3 = []
     for k in range(0, 4):
         b3 += [b"".join(t) for t in itertools.product(BYTES, repeat=k)]
@@ -211,6 +216,17 @@ def _site(i, c):
         body = "assert snapshot()[%s] == %s" % (r, r)
     elif pos == "fix":
         body = "assert %s == snapshot('old' 'er')" % r
+    elif pos in ("parins", "pardel", "pardict"):
+        # the literal as a hand-wrapped implicit concatenation: parentheses on lines of their own, a sibling is inserted / deleted next to it
+        v = _val(c)
+        h = len(v) // 2
+        lit = "(\n            %r\n            %r\n        )" % (v[:h], v[h:])
+        if pos == "parins":
+            body = "assert [%s, 'new', 'tail'] == snapshot(\n        [\n        %s,\n        'tail',\n        ]\n    )" % (r, lit)
+        elif pos == "pardel":
+            body = "assert ['head', %s] == snapshot(\n        [\n        'head',\n        %s,\n        'gone',\n        ]\n    )" % (r, lit)
+        else:
+            body = "assert {'k': %s, 'z': 1} == snapshot(\n        {\n        'k': %s,\n        }\n    )" % (r, lit)
     elif pos == "fixfrom":
         body = "assert %s == snapshot(%r)" % (r, c["old"])
     elif pos == "fixfromlist":
@@ -225,6 +241,12 @@ def _expected(c):
         return v
     if pos == "fixfromlist":
         return [0, v, "z"]
+    if pos == "parins":
+        return [v, "new", "tail"]
+    if pos == "pardel":
+        return ["head", v]
+    if pos == "pardict":
+        return {"k": v, "z": 1}
     if pos == "list":
         return [0, v]
     if pos in ("dict", "sub"):
